@@ -36,7 +36,7 @@ func (e c14Ev) String() string {
 	return e.Op + ":" + e.Arg
 }
 
-type c14Bounds struct{ maxScans, maxP, maxT int }
+type c14Bounds struct{ maxScans, maxP, maxT, maxF int }
 
 func c14Apply(w *c14World, e c14Ev) {
 	switch e.Op {
@@ -82,6 +82,34 @@ func c14Apply(w *c14World, e c14Ev) {
 				} else {
 					w.ct.m.Delete(c.FwdKey.AsBytes())
 				}
+			}
+		}
+	case "P:rebind":
+		// The forward entry is LRU-evicted and re-created by a NEW connection from the same client
+		// ip:port to the same service that is load-balanced to another backend: same forward key, new
+		// reverse key, both stamped now. The old reverse entry stays behind as an idle orphan.
+		w.pUsed++
+		w.clock.now += time.Microsecond
+		for _, c := range w.conns {
+			if c.Name != e.Arg {
+				continue
+			}
+			old := c.Key
+			orphan := &c14Conn{Name: c.Name + ".old", Kind: c.Kind, Timeout: c.Timeout, Key: old}
+			w.names[string(old.AsBytes())] = orphan.Name + "rev"
+			c.Key = w.mkKey(old.Proto(), "10.0.0.1", old.PortA(), "10.0.0.77", 9090)
+			c.Rebound = true
+			w.names[string(c.Key.AsBytes())] = c.Name + ".rev2"
+			w.put(c.Key, w.newValue(c, w.clock.now, false))
+			w.put(c.FwdKey, w.newValue(c, w.clock.now, true))
+			w.conns = append(w.conns, orphan)
+			break
+		}
+	case "F:ccq-write-fails":
+		w.fUsed++
+		for k, n := range w.names {
+			if n == e.Arg {
+				w.armedCCQ = k
 			}
 		}
 	case "P:evict":
@@ -133,6 +161,9 @@ func c14Enabled(w *c14World, b c14Bounds) []c14Ev {
 			if !hasF || !hasT {
 				evs = append(evs, c14Ev{"P:create", c.Name})
 			}
+			if hasF && !c.Rebound {
+				evs = append(evs, c14Ev{"P:rebind", c.Name})
+			}
 		}
 		var names []string
 		for k, n := range w.names {
@@ -147,6 +178,18 @@ func c14Enabled(w *c14World, b c14Bounds) []c14Ev {
 	}
 	if w.tUsed < b.maxT {
 		evs = append(evs, c14Ev{"T", "+2s"})
+	}
+	if scanning && w.fUsed < b.maxF && w.armedCCQ == "" {
+		var names []string
+		for k, n := range w.names {
+			if _, ok := w.ct.m.Lookup([]byte(k)); ok {
+				names = append(names, n)
+			}
+		}
+		sort.Strings(names)
+		for _, n := range names {
+			evs = append(evs, c14Ev{"F:ccq-write-fails", n})
+		}
 	}
 	return evs
 }
@@ -168,7 +211,7 @@ func c14Check(w *c14World) []hbfs.Fail {
 	// visiting order of the scan that just finished; with no packet, eviction or clock event at all,
 	// every entry that was idle past its timeout when the scan started must be gone after that ONE
 	// scan (whatever the order), and so must an orphaned forward entry.
-	if w.scans >= 1 && w.pUsed == 0 && w.tUsed == 0 {
+	if w.scans >= 1 && w.pUsed == 0 && w.tUsed == 0 && w.fUsed == 0 {
 		if fs := w.idleLeft("after one undisturbed scan+cleaner pass (this visiting order)"); len(fs) > 0 {
 			return fs
 		}
@@ -212,8 +255,12 @@ func (w *c14World) idleLeft(when string) []hbfs.Fail {
 
 func c14Spec(name string, ver int, prog *ebpf.Program, qk, qv int, init []c14Init, b c14Bounds, depth int, graph bool) *hbfs.Spec[*c14World, c14Ev] {
 	sp := &hbfs.Spec[*c14World, c14Ev]{
-		Name:     name,
-		New:      func() *c14World { return c14NewWorld(ver, prog, qk, qv, init) },
+		Name: name,
+		New: func() *c14World {
+			w := c14NewWorld(ver, prog, qk, qv, init)
+			w.maxF = b.maxF
+			return w
+		},
 		Apply:    c14Apply,
 		Enabled:  func(w *c14World, d int) []c14Ev { return c14Enabled(w, b) },
 		Check:    func(w *c14World, h []c14Ev) []hbfs.Fail { return c14Check(w) },
@@ -291,7 +338,7 @@ func TestVerif_C14(t *testing.T) {
 			}
 			progs[ver], qk[ver], qv[ver] = prog, int(k), int(v)
 		}
-		c.Rule("actors: U = real Scanner.Scan()+LivenessScanner advanced hook by hook (every visiting order of the conntrack keys, the reverse-entry Get, every processing order of the cleanup queue), K = real conntrack_cleanup.c interpreted one queue entry per step, P = forward/reverse packet on a connection, LRU eviction of any entry, re-creation, T = clock +2s; " +
+		c.Rule("actors: U = real Scanner.Scan()+LivenessScanner advanced hook by hook (every visiting order of the conntrack keys, the reverse-entry Get, every processing order of the cleanup queue), K = real conntrack_cleanup.c interpreted one queue entry per step, P = forward/reverse packet on a connection, LRU eviction of any entry, re-creation with the same reverse key, re-creation of the forward entry for a new backend (different reverse key), T = clock +2s, F = a transient failure (EINTR) of any map operation the scanner issues (reverse-entry Get, conntrack iteration, cleanup-queue Update), at most one per history; " +
 			"initial tables: every connection kind {udp, icmp, unknown protocol, tcp syn-sent/established/half-closed/fins/rst-flag/fins+rst, established or syn-sent with an old or recent rst_seen timestamp, DSR syn-only/one-fin/old-rst, NAT pair udp/tcp with equal or different leg timestamps or old rst_seen, orphan forward, orphan reverse} x age {fresh, 1s under, 1s over the timeout}, alone and in pairs; bounds: scans, packets, clock steps per exploration (see extras). " +
 			"Non-trivial = a deletion happened or a packet event interleaved with a scan in progress.")
 		c.Assume("one invocation of process_ccq_entry is atomic (the window between its lookup and its delete inside one BPF invocation is not explored)")
@@ -318,6 +365,7 @@ func TestVerif_C14(t *testing.T) {
 				singles = append(singles, scen{[]c14Init{{Kind: k, Age: a}}})
 				singles = append(singles, scen{[]c14Init{{Kind: k, Age: a, FwdOlder: true}}})
 			}
+			singles = append(singles, scen{[]c14Init{{Kind: k, Age: "fresh"}}}, scen{[]c14Init{{Kind: k, Age: "fresh", FwdOlder: true}}})
 			singles = append(singles, scen{[]c14Init{{Kind: k, Age: "over", NoRev: true}}})
 			singles = append(singles, scen{[]c14Init{{Kind: k, Age: "fresh", NoRev: true}}})
 			singles = append(singles, scen{[]c14Init{{Kind: k, Age: "over", NoFwd: true}}})
@@ -351,11 +399,11 @@ func TestVerif_C14(t *testing.T) {
 			if !graph {
 				mode = "tree"
 			}
-			hbfs.Explore(c, c14Spec(fmt.Sprintf("C14[%s|scans=%d,p=%d,t=%d|%s]", describe(s), b.maxScans, b.maxP, b.maxT, mode), 4, progs[4], qk[4], qv[4], s.init, b, depth, graph))
+			hbfs.Explore(c, c14Spec(fmt.Sprintf("C14[%s|scans=%d,p=%d,t=%d,f=%d|%s]", describe(s), b.maxScans, b.maxP, b.maxT, b.maxF, mode), 4, progs[4], qk[4], qv[4], s.init, b, depth, graph))
 		}
 		if c.Quick() {
 			for _, s := range singles {
-				run(s, c14Bounds{maxScans: 1, maxP: 2, maxT: 1}, 12, true)
+				run(s, c14Bounds{maxScans: 1, maxP: 2, maxT: 1, maxF: 1}, 14, true)
 			}
 			for _, s := range pairs[:2] {
 				run(s, c14Bounds{maxScans: 1, maxP: 1, maxT: 1}, 20, true)
@@ -363,14 +411,14 @@ func TestVerif_C14(t *testing.T) {
 			run(scen{[]c14Init{{Kind: "nat-udp", Age: "over", FwdOlder: true}}}, c14Bounds{maxScans: 1, maxP: 1, maxT: 1}, 6, false)
 			// IPv6 instance of the scanner (KeyV6/ValueV6, cleanupv1.ValueV6, conntrack_cleanup.c -DIPVER6)
 			for _, s := range []scen{{[]c14Init{{Kind: "udp", Age: "over"}}}, {[]c14Init{{Kind: "nat-udp", Age: "over"}}}, {[]c14Init{{Kind: "nat-udp", Age: "over", FwdOlder: true}}}, {[]c14Init{{Kind: "nat-tcp", Age: "over", NoFwd: true}}}} {
-				run6(s, c14Bounds{maxScans: 1, maxP: 1, maxT: 1}, 12)
+				run6(s, c14Bounds{maxScans: 1, maxP: 1, maxT: 1, maxF: 1}, 14)
 			}
 		} else {
 			for _, s := range singles {
-				run6(s, c14Bounds{maxScans: 2, maxP: 2, maxT: 1}, 22)
+				run6(s, c14Bounds{maxScans: 2, maxP: 2, maxT: 1, maxF: 1}, 24)
 			}
 			for _, s := range singles {
-				run(s, c14Bounds{maxScans: 2, maxP: 3, maxT: 2}, 22, true)
+				run(s, c14Bounds{maxScans: 2, maxP: 3, maxT: 2, maxF: 1}, 24, true)
 				run(s, c14Bounds{maxScans: 1, maxP: 2, maxT: 1}, 8, false)
 			}
 			for _, s := range pairs {
